@@ -380,20 +380,20 @@ type belief struct {
 
 // panicInventory: "package|message (or Sprintf format)" -> belief.
 var panicInventory = map[string]belief{
-	"internal/diff|invalid edit-type":                         {2, "switch over the package's own three edit types"},
-	"internal/data|key or value may not be nil":               {1, "every call site passes a non-nil struct/string key and a struct value (R4 lists them)"},
-	"internal/data|Lookup target must be a pointer, not %v":   {1, "every call site passes &local (R4 lists them)"},
-	"internal/pgo/augment|unknown augmentation type %T":       {1, "type switch over the package's own three augmentation types"},
-	"internal/goast|ImportSpec and its Path must be non-nil":  {1, "specs come from go/parser"},
-	"internal/goast|invalid import path %q: %v":               {1, "go/parser only accepts string literals as import paths"},
-	"internal/goast|ImportSpec must be non-nil":               {1, "not called with nil"},
-	"internal/goast|File must be non-nil":                     {1, "called with the parsed target file"},
-	"internal/goast|cannot use maps inside an AST node":       {1, "go/ast uses maps only in Scope, which File handling skips (R6 checks the schema)"},
-	"internal/pgo|unknown augmentation %T":                    {1, "only Dots augmentations reach Apply: FakePackage/FakeFunc are stripped in Parse"},
-	"internal/pgo|impossible: could not find a declaration":   {1, "the augmenter always yields one declaration (a fake func when no declaration token starts the source)"},
-	"internal/pgo|impossible: unknown top-level type %T":      {1, "the four node kinds go/parser can produce at that place"},
-	"internal/engine|%q is not a field of %T":                 {2, "field name recorded from the same parent by astutil.Cursor (one of the two sites is the dead SearchReplacer)"},
-	"internal/engine|unknown pgo node %T":                     {2, "type switch over the four pgo node kinds pgo.Parse produces (matcher and replacer compileFile)"},
+	"internal/diff|invalid edit-type":                        {2, "switch over the package's own three edit types"},
+	"internal/data|key or value may not be nil":              {1, "every call site passes a non-nil struct/string key and a struct value (R4 lists them)"},
+	"internal/data|Lookup target must be a pointer, not %v":  {1, "every call site passes &local (R4 lists them)"},
+	"internal/pgo/augment|unknown augmentation type %T":      {1, "type switch over the package's own three augmentation types"},
+	"internal/goast|ImportSpec and its Path must be non-nil": {1, "specs come from go/parser"},
+	"internal/goast|invalid import path %q: %v":              {1, "go/parser only accepts string literals as import paths"},
+	"internal/goast|ImportSpec must be non-nil":              {1, "not called with nil"},
+	"internal/goast|File must be non-nil":                    {1, "called with the parsed target file"},
+	"internal/goast|cannot use maps inside an AST node":      {1, "go/ast uses maps only in Scope, which File handling skips (R6 checks the schema)"},
+	"internal/pgo|unknown augmentation %T":                   {1, "only Dots augmentations reach Apply: FakePackage/FakeFunc are stripped in Parse"},
+	"internal/pgo|impossible: could not find a declaration":  {1, "the augmenter always yields one declaration (a fake func when no declaration token starts the source)"},
+	"internal/pgo|impossible: unknown top-level type %T":     {1, "the four node kinds go/parser can produce at that place"},
+	"internal/engine|%q is not a field of %T":                {2, "field name recorded from the same parent by astutil.Cursor (one of the two sites is the dead SearchReplacer)"},
+	"internal/engine|unknown pgo node %T":                    {2, "type switch over the four pgo node kinds pgo.Parse produces (matcher and replacer compileFile)"},
 }
 
 // assertInventory: "package|asserted type <- operand kind" -> belief.
